@@ -126,7 +126,8 @@ def gen_plan(seed, tier="quick"):
                  "reopen_keep_open": r.random() < 0.35,   # ... or the first reader stays open while the second one is constructed
                  # constructor keywords that must not change what a flat binary exposes: a ch_file= handed along (reader
                  # keywords reused from the compressed form of the recording), the metadata passed explicitly from elsewhere
-                 "kw_ch_file": r.random() < 0.08, "kw_meta_file": r.random() < 0.08})
+                 "kw_ch_file": r.random() < 0.08, "kw_meta_file": r.random() < 0.08,
+                 "symlink": r.random() < 0.1})       # the data file is a symbolic link into a store, its .meta a regular file beside the link
     return plan
 
 
@@ -203,6 +204,12 @@ def _run(plan, root):
         target = binf.with_suffix(".cbin")
         fault("cbin_shorter_than_meta" if plan["frames"] < plan["claimed"] else "cbin_longer_than_meta")
     else:
+        if plan.get("symlink"):
+            import os as _os
+            store = root / "store" / "a1"
+            store.mkdir(parents=True)
+            _os.symlink(_os.path.relpath(store / "SHA256E-s0--77aa.bin", root), binf)
+            probe("data_file_is_a_symlink_into_a_store")
         with open(binf, "wb") as f:
             f.write(stream[: plan["bytes"]])
         target = binf
